@@ -322,4 +322,22 @@ theorem pcbc_hazard_refuted :
     (Mem.Pcbc.encBlockHazard C [1] (IOB.inplace [2])).2 ≠ (Mem.Pcbc.encBlockHazard C [1] (IOB.b2b [2] [9])).2 := by
   decide
 
+open Impl.MemWr Impl.MemCts Glue in
+/-- **the consuming core-level one-shot `try_apply_keystream_partial`** (statement-by-statement mirror
+    `Impl.MemWr.partialMem`), for every length-regular core (instances: `cores_are_length_regular`) and every data length: in
+    place on `m` and from `m` into an output buffer holding arbitrary `g` the outcome is the same — either both calls are
+    rejected by the check (nothing written), or both write `Glue.applyPartialUnchecked K w s m`. -/
+theorem partial_alias_indep {σ : Type} {K : Core σ} {P : σ → Prop} (hK : LenCore K P) (w : Nat) (s : σ) (hP : P s)
+    (m g : Bytes) (hg : g.length = m.length) :
+    partialMem K w s (IOBuf.inplace m) =
+      (if partialCheck K s m.length then .ok (applyPartialUnchecked K w s m) else .err m) ∧
+    partialMem K w s (IOBuf.b2b m g) =
+      (if partialCheck K s m.length then .ok (applyPartialUnchecked K w s m) else .err g) := by
+  have h1 := partialMem_eq hK w s hP (IOBuf.inplace m) (WF_inplace m)
+  have h2 := partialMem_eq hK w s hP (IOBuf.b2b m g) (WF_b2b m g hg.symm)
+  have l2 : (IOBuf.b2b m g).len = m.length := by simp [IOBuf.b2b, IOBuf.len, hg]
+  refine ⟨?_, ?_⟩
+  · rw [h1]; rfl
+  · rw [h2, l2]; rfl
+
 end Thm.C12
